@@ -70,8 +70,15 @@ def generate(rng, tier):
     for c in cases:
         p = np.array(c["v"])
         a = np.array([rng.gauss(0, 1) for _ in range(3)])
-        fk = rng.choice(["affine", "affine", "smooth"])
-        if fk == "affine":
+        fk = rng.choice(["affine", "affine", "smooth", "two_peaks"])
+        if fk == "two_peaks":
+            # a high narrow peak and a lower, wider one: the maximum of f and the minimum of the geodesic function are unrelated
+            size = np.abs(p - p.mean(0)).max() + 1e-300
+            c1, c2 = p[rng.randrange(len(p))], p[rng.randrange(len(p))]
+            f = np.exp(-((p - c1) ** 2).sum(1) / (0.15 * size) ** 2) + 0.6 * np.exp(-((p - c2) ** 2).sum(1) / (0.6 * size) ** 2) \
+                + 0.05 * (p @ a) / size
+            fk = "smooth"
+        elif fk == "affine":
             if c["kind"] == "tria" and c["flat"]:
                 # direction inside the plane so that the gradient does not vanish
                 n = np.cross(p[c["t"][0][1]] - p[c["t"][0][0]], p[c["t"][0][2]] - p[c["t"][0][0]])
